@@ -26,6 +26,66 @@ theorem getC_setC_ne (cs : List (Key × Nat)) (k k' : Key) (v : Nat) (h : k' ≠
     · rename_i e; subst e; simp [getC, Ne.symm h]
     · simp only [getC]; split <;> simp_all
 
+theorem getC_mem {cs : List (Key × Nat)} {k : Key} {o : Nat} (h : getC cs k = some o) : (k, o) ∈ cs := by
+  induction cs with
+  | nil => simp [getC] at h
+  | cons a rest ih =>
+    obtain ⟨k', v'⟩ := a
+    simp only [getC] at h
+    split at h
+    · rename_i e; cases h; subst e; exact List.mem_cons_self
+    · exact List.mem_cons_of_mem _ (ih h)
+
+theorem mem_setC {cs : List (Key × Nat)} {k : Key} {v : Nat} {e : Key × Nat} (h : e ∈ setC cs k v) : e = (k, v) ∨ e ∈ cs := by
+  induction cs with
+  | nil => simp [setC] at h; exact Or.inl h
+  | cons a rest ih =>
+    obtain ⟨k', v'⟩ := a
+    simp only [setC] at h
+    split at h
+    · rcases List.mem_cons.mp h with h | h
+      · exact Or.inl h
+      · exact Or.inr (List.mem_cons_of_mem _ h)
+    · rcases List.mem_cons.mp h with h | h
+      · exact Or.inr (h ▸ List.mem_cons_self)
+      · rcases ih h with h | h
+        · exact Or.inl h
+        · exact Or.inr (List.mem_cons_of_mem _ h)
+
+/-- filtering the claim table keeps the owner of a key whose (first) row passes the filter -/
+theorem getC_filter_keep {cs : List (Key × Nat)} {k : Key} {o : Nat} (p : Key × Nat → Bool)
+    (h : getC cs k = some o) (hp : p (k, o) = true) : getC (cs.filter p) k = some o := by
+  induction cs with
+  | nil => simp [getC] at h
+  | cons a rest ih =>
+    obtain ⟨k', v'⟩ := a
+    simp only [getC] at h
+    split at h
+    · rename_i e; cases h; subst e
+      simp [List.filter, hp, getC]
+    · rename_i e
+      simp only [List.filter]
+      split
+      · simp only [getC, e, if_false]; exact ih h
+      · exact ih h
+
+/-- `acquire` only ever adds the row (k, i) -/
+theorem acquire_mem {s : St} {cs cs' : List (Key × Nat)} {k : Key} {i : Nat} {steal : Bool}
+    (h : acquire s cs k i steal = some cs') : ∀ e ∈ cs', e = (k, i) ∨ e ∈ cs := by
+  intro e he
+  unfold acquire at h
+  split at h
+  · cases h; exact mem_setC he
+  · split at h
+    · cases h; exact Or.inr he
+    · split at h
+      · split at h
+        · cases h; exact mem_setC he
+        · split at h
+          · cases h; exact mem_setC he
+          · cases h
+      · cases h
+
 /-- what a successful `acquire` guarantees: the key is now owned by `i`, other keys are untouched, and a previous
     different owner was stealable (steal requested and owner row gone / complete / — with the fix — NOT_STARTED) -/
 theorem acquire_some {s : St} {cs cs' : List (Key × Nat)} {k : Key} {i : Nat} {steal : Bool}
@@ -72,9 +132,9 @@ structure Inv (s : St) : Prop where
   owner : ∀ (i : Nat) (g : Stage) (k : Nat), s.stages[i]? = some g → live g.status = true → g.mutex = some k →
       getC s.claims (.mutex k) = some i
   /-- the owner of a mutex claim row carries that key -/
-  claimKey : ∀ (k o : Nat), getC s.claims (.mutex k) = some o → ∃ g : Stage, s.stages[o]? = some g ∧ g.mutex = some k
-  /-- every stage of a group that ever started owns the group's claim row -/
-  winner : ∀ (i : Nat) (g : Stage) (c : Nat), i ∈ s.started → s.stages[i]? = some g → g.group = some c →
+  claimKey : ∀ (k o : Nat), (Key.mutex k, o) ∈ s.claims → ∃ g : Stage, s.stages[o]? = some g ∧ g.mutex = some k
+  /-- while the execution is not terminal: every stage of a group that ever started owns the group's claim row -/
+  winner : s.wfTerminal = false → ∀ (i : Nat) (g : Stage) (c : Nat), i ∈ s.started → s.stages[i]? = some g → g.group = some c →
       getC s.claims (.choice c) = some i
   stat : ∀ (i : Nat) (g : Stage), s.stages[i]? = some g → okStatus g.status
 
@@ -126,7 +186,8 @@ theorem inv_setStatus {s : St} (h : Inv s) (i : Nat) (st : Status) (hok : okStat
     split
     · rename_i e; subst e; rw [hg]; exact ⟨_, rfl, hm⟩
     · exact ⟨g, hg, hm⟩
-  · intro j g c hj hg hc
+  · intro hwf j g c hj hg hc
+    rw [setStatus_wf] at hwf
     rw [setStatus_claims]
     rw [setStatus_started] at hj
     rw [setStatus_get] at hg
@@ -136,8 +197,8 @@ theorem inv_setStatus {s : St} (h : Inv s) (i : Nat) (st : Status) (hok : okStat
       | none => rw [hg0] at hg; cases hg
       | some g0 =>
         rw [hg0] at hg; simp at hg; subst hg
-        exact h.winner j g0 c hj hg0 hc
-    · exact h.winner j g c hj hg hc
+        exact h.winner hwf j g0 c hj hg0 hc
+    · exact h.winner hwf j g c hj hg hc
   · intro j g hj
     rw [setStatus_get] at hj
     split at hj
@@ -147,12 +208,12 @@ theorem inv_setStatus {s : St} (h : Inv s) (i : Nat) (st : Status) (hok : okStat
     · exact h.stat j g hj
 
 /-- the invariant only looks at stages, claims and the started log -/
-theorem inv_congr {s s' : St} (h : Inv s) (h1 : s'.stages = s.stages) (h2 : s'.claims = s.claims) (h3 : s'.started = s.started) :
-    Inv s' := by
+theorem inv_congr {s s' : St} (h : Inv s) (h1 : s'.stages = s.stages) (h2 : s'.claims = s.claims) (h3 : s'.started = s.started)
+    (h4 : s'.wfTerminal = false → s.wfTerminal = false := by exact id) : Inv s' := by
   refine ⟨?_, ?_, ?_, ?_⟩
   · intro i g k; rw [h1, h2]; exact h.owner i g k
   · intro k o; rw [h1, h2]; exact h.claimKey k o
-  · intro i g c; rw [h1, h2, h3]; exact h.winner i g c
+  · intro hwf i g c; rw [h1, h2, h3]; exact h.winner (h4 hwf) i g c
   · intro i g; rw [h1]; exact h.stat i g
 
 theorem inv_cancelOne {s : St} (h : Inv s) (i : Nat) : Inv (cancelOne s i) := by
@@ -302,16 +363,40 @@ theorem inv_claimWith {s : St} (h : Inv s) (i : Nat) (mb cc : Bool) : Inv (claim
                   · exact hold
               · intro k o ho
                 simp only [hget]
-                change getC cs2 (.mutex k) = some o at ho
-                rw [hM] at ho
-                split at ho
-                · rename_i hgm; cases ho; simp [hgm]
-                · rename_i hgm
-                  obtain ⟨g', hg', hm'⟩ := h.claimKey k o ho
+                change (Key.mutex k, o) ∈ cs2 at ho
+                have hmem : (Key.mutex k, o) = (Key.mutex k, i) ∧ g.mutex = some k ∨ (Key.mutex k, o) ∈ s.claims := by
+                  have e2 : ∀ e ∈ cs2, e ∈ cs1 ∨ (∃ c, g.group = some c ∧ e = (Key.choice c, i)) := by
+                    intro e he
+                    cases hgr : g.group with
+                    | none => rw [hgr] at h2; simp only at h2; cases h2; exact Or.inl he
+                    | some c =>
+                      rw [hgr] at h2; simp only at h2
+                      rcases acquire_mem h2 e he with h | h
+                      · exact Or.inr ⟨c, rfl, h⟩
+                      · exact Or.inl h
+                  have e1 : ∀ e ∈ cs1, e ∈ s.claims ∨ (∃ k0, g.mutex = some k0 ∧ e = (Key.mutex k0, i)) := by
+                    intro e he
+                    cases hmu : g.mutex with
+                    | none => rw [hmu] at h1; simp only at h1; cases h1; exact Or.inl he
+                    | some k0 =>
+                      rw [hmu] at h1; simp only at h1
+                      rcases acquire_mem h1 e he with h | h
+                      · exact Or.inr ⟨k0, rfl, h⟩
+                      · exact Or.inl h
+                  rcases e2 _ ho with h | ⟨c, _, h⟩
+                  · rcases e1 _ h with h | ⟨k0, hk0, h⟩
+                    · exact Or.inr h
+                    · have hk : k = k0 := by injection h with h' _; injection h'
+                      subst hk; exact Or.inl ⟨h, hk0⟩
+                  · cases h
+                rcases hmem with ⟨heq, hgm⟩ | hold
+                · have : o = i := by injection heq
+                  subst this; simp [hgm]
+                · obtain ⟨g', hg', hm'⟩ := h.claimKey k o hold
                   by_cases e : o = i
-                  · subst e; rw [hg] at hg'; cases hg'; exact absurd hm' hgm
+                  · subst e; rw [hg] at hg'; cases hg'; simp [hm']
                   · simp [e]; exact ⟨g', hg', hm'⟩
-              · intro j gj c hj hgj hc
+              · intro hwf j gj c hj hgj hc
                 simp only [hget] at hgj
                 show getC cs2 (.choice c) = some j
                 rw [hC]
@@ -321,7 +406,7 @@ theorem inv_claimWith {s : St} (h : Inv s) (i : Nat) (mb cc : Bool) : Inv (claim
                   have hjs : j ∈ s.started := by
                     have : j ∈ i :: s.started := hj
                     simp [e] at this; exact this
-                  have hold := h.winner j gj c hjs hgj hc
+                  have hold := h.winner hwf j gj c hjs hgj hc
                   split
                   · rename_i hgc; exact absurd (hW c j hgc hold) e
                   · exact hold
@@ -331,9 +416,9 @@ theorem inv_claimWith {s : St} (h : Inv s) (i : Nat) (mb cc : Bool) : Inv (claim
                 · cases hj; exact Or.inr (Or.inl rfl)
                 · exact h.stat j gj hj
 
-/-! ### every operation keeps the invariant while the execution is not terminal -/
+/-! ### every operation keeps the invariant (the choice part of it only speaks about executions that are not terminal) -/
 
-theorem step_inv {s : St} (h : Inv s) (o : Op) (hwf : s.wfTerminal = false) : Inv (step s o).1 := by
+theorem step_inv {s : St} (h : Inv s) (o : Op) : Inv (step s o).1 := by
   cases o with
   | peekM i => exact inv_congr h rfl rfl rfl
   | peekC i => exact inv_congr h rfl rfl rfl
@@ -374,11 +459,20 @@ theorem step_inv {s : St} (h : Inv s) (o : Op) (hwf : s.wfTerminal = false) : In
   | endWorkflow =>
     simp only [step]
     split
-    · exact inv_congr h rfl rfl rfl
+    · exact inv_congr h rfl rfl rfl (fun hf => by cases hf)
     · exact h
   | sweep =>
-    simp only [step, hwf]
-    exact h
+    simp only [step]
+    split
+    · rename_i hterm
+      refine ⟨?_, ?_, fun hf => by simp [hterm] at hf, h.stat⟩
+      · intro i g k hi hl hm
+        refine getC_filter_keep _ (h.owner i g k hi hl hm) ?_
+        simp only [ownerLive, statusOf, hi, Option.map_some]
+        exact hl
+      · intro k o ho
+        exact h.claimKey k o (List.mem_filter.mp ho).1
+    · exact h
   | cancelLosers => exact inv_congr (inv_cancelAll h s.cancelQ) rfl rfl rfl
 
 /-- the execution's terminal flag is never taken back -/
@@ -444,17 +538,70 @@ theorem run_wf_mono (s : St) (ops : List Op) (h : s.wfTerminal = true) : (run s 
 
 theorem run_cons (s : St) (o : Op) (rest : List Op) : run s (o :: rest) = run (step s o).1 rest := rfl
 
-/-- **main induction**: if the execution is still not terminal at the end, the invariant held all the way -/
-theorem run_inv {s : St} (h : Inv s) (ops : List Op) (hend : (run s ops).wfTerminal = false) : Inv (run s ops) := by
+/-- `fixSteal` is a constant of a run -/
+theorem claimWith_fix (s : St) (i : Nat) (mb cc : Bool) : (claimWith s i mb cc).1.fixSteal = s.fixSteal := by
+  unfold claimWith
+  cases hg : s.stages[i]? with
+  | none => rfl
+  | some g =>
+    simp only
+    split
+    · rfl
+    · split
+      · rfl
+      · split
+        · rfl
+        · split
+          · rfl
+          · split <;> rfl
+
+theorem step_fix (s : St) (o : Op) : (step s o).1.fixSteal = s.fixSteal := by
+  cases o with
+  | peekM i => rfl
+  | peekC i => rfl
+  | claim i => simp only [step]; exact claimWith_fix _ _ _ _
+  | tryStart i => simp only [step]; exact claimWith_fix _ _ _ _
+  | finish i st =>
+    simp only [step]
+    split
+    · exact setStatus_fix _ _ _
+    · rfl
+  | cancel i =>
+    simp only [step]
+    split
+    · rfl
+    · exact cancelOne_fix _ _
+  | park i st =>
+    simp only [step]
+    split
+    · exact setStatus_fix _ _ _
+    · rfl
+  | unpark i =>
+    simp only [step]
+    split
+    · exact setStatus_fix _ _ _
+    · rfl
+  | reset i => exact setStatus_fix _ _ _
+  | endWorkflow =>
+    simp only [step]
+    split <;> rfl
+  | sweep =>
+    simp only [step]
+    split <;> rfl
+  | cancelLosers => exact cancelAll_fix _ _
+
+theorem run_fix (s : St) (ops : List Op) : (run s ops).fixSteal = s.fixSteal := by
+  induction ops generalizing s with
+  | nil => rfl
+  | cons o rest ih => rw [run_cons, ih, step_fix]
+
+/-- **main induction** -/
+theorem run_inv {s : St} (h : Inv s) (ops : List Op) : Inv (run s ops) := by
   induction ops generalizing s with
   | nil => exact h
   | cons o rest ih =>
-    rw [run_cons] at hend ⊢
-    have hwf : s.wfTerminal = false := by
-      cases e : s.wfTerminal with
-      | false => rfl
-      | true => rw [run_wf_mono _ rest (step_wf_mono s o e)] at hend; cases hend
-    exact ih (step_inv h o hwf) hend
+    rw [run_cons]
+    exact ih (step_inv h o)
 
 theorem init_inv (f : Bool) (stages : List Stage) : Inv (init f stages) := by
   refine ⟨?_, ?_, ?_, ?_⟩
@@ -463,8 +610,8 @@ theorem init_inv (f : Bool) (stages : List Stage) : Inv (init f stages) := by
     cases hs : stages[i]? with
     | none => rw [hs] at hi; cases hi
     | some g0 => rw [hs] at hi; simp at hi; subst hi; simp [live] at hl
-  · intro k o ho; simp [init, getC] at ho
-  · intro i g c hi; simp [init] at hi
+  · intro k o ho; simp [init] at ho
+  · intro _ i g c hi; simp [init] at hi
   · intro i g hi
     simp only [init, List.getElem?_map] at hi
     cases hs : stages[i]? with
